@@ -146,10 +146,14 @@ def register_conversion(src_name: str, dst: "type[Hamiltonian] | str",
     registry = get_hamiltonian_services()
 
     def _decorator(func):
-        registry._CONVERSION_REGISTRY[(src_name, dst_name)] = (
-            func, 
-            required_context or [], 
-            default_params or {}
+        # Go through the registry's own method: it also updates the conversion service
+        # when that has already been initialised (a direct write to the table would not).
+        registry.register_conversion(
+            src_name,
+            dst_name,
+            func,
+            required_context or [],
+            default_params or {},
         )
         return func
 
